@@ -28,7 +28,9 @@ def c09_1(c: Ctx) -> None:
     u = c.unit(SVC, 'EventBus.execute_handler')
     g = c.cfg(u)
     sets = ctx_sets(c, u)
-    c.floor(len(sets), 1, 'context-variable tokens in execute_handler')
+    if not sets:
+        c.fail(u, 'no context-variable token is taken directly in execute_handler', 'the set/reset pairing of the handler context cannot be established on every exit of execute_handler (sets moved elsewhere)')
+        return
     for st, var, tok in sets:
         def is_reset(n, var=var, tok=tok):
             return any(call_name(x) == 'reset' and U(x.func.value) == var and x.args and U(x.args[0]) == tok for x in q.node_calls(n))
@@ -167,6 +169,35 @@ def c09_5(c: Ctx) -> None:
                             c.fail(u, f'suspension point `{aw.text(60)}` between the context sets and the handler invocation', 'another task can run between setting the handler context and starting the handler', node=aw.ast, witness=c.path(sn, p))
                             continue
                     c.ok(where(u, call), 'no suspension point between the context sets and the invocation')
+
+
+@ob('C09.8', 'CTX', 'an async handler is started in its own task (asyncio.create_task snapshots the context at that moment); it is never awaited inline inside execute_handler, '
+    'whose tasks share one Context object on a parallel_handlers bus — inline execution would let overlapping handlers overwrite each other\'s current-event / handler-id')
+def c09_8(c: Ctx) -> None:
+    u = c.unit(SVC, 'EventBus.execute_handler')
+    inv = [call for x, call in handler_invocations(c) if x.key == u.key]
+    c.floor(len(inv), 2, 'handler invocations')
+    eh_tasks = [n for n in own_nodes(c.unit(SVC, 'EventBus._execute_handlers').node) if isinstance(n, ast.Call) and call_name(n) in ('create_task', 'ensure_future') and n.args and isinstance(n.args[0], ast.Call) and call_name(n.args[0]) == 'execute_handler']
+    shared = [t for t in eh_tasks if q.kw(t, 'context') is not None]
+    c.note(f'execute_handler tasks created with a shared context= object: {len(shared)} of {len(eh_tasks)}')
+    for call in inv:
+        p_ = parent(call)
+        if isinstance(p_, ast.Await):
+            c.fail(u, f'async handler awaited inline: {U(p_)[:60]}', 'the handler coroutine runs in the (shared) context of execute_handler instead of its own task: on a parallel_handlers bus overlapping handlers overwrite each other\'s handler context, children are attributed to the wrong handler', node=call)
+        elif isinstance(p_, ast.Call) and call_name(p_) in ('create_task', 'ensure_future'):
+            if q.kw(p_, 'context') is None:
+                c.ok(where(u, call), 'async handler started with create_task (private copy of the current context)')
+            else:
+                c.fail(u, f'handler task created with an explicit context=: {U(p_)[:70]}', 'the handler task does not run in a private snapshot of the context set up for it', node=call)
+        else:
+            # sync invocation: must be on the non-coroutine branch
+            gi = q.enclosing(call, (ast.If,))
+            if gi is not None and 'iscoroutinefunction' not in U(gi.test):
+                c.ok(where(u, call), 'sync handler called directly (cannot overlap: it never suspends)')
+            elif gi is not None and any(q.lexically_in(call, gi, 'orelse') for _ in [0]):
+                c.ok(where(u, call), 'sync handler called directly on the non-coroutine branch')
+            else:
+                c.fail(u, f'handler called without a task on the coroutine branch: {q.stmt_text(q.stmt_of(call), 60)}', 'an async handler is not given its own task/context', node=call)
 
 
 @ob('C09.6', 'WMW', 'the current-event / inside-handler / handler-id context variables are written only in execute_handler (and reset to constants at the start of the run loop)')
